@@ -422,6 +422,19 @@ def unescaped_dollars(s):
     return len(re.findall(r"(?<!\\)\$", s))
 
 
+def tex_dollars(s):
+    """dollars that TeX (and the decoder) reads as math delimiters: a backslash takes the NEXT character with it, so a dollar
+    after an even run of backslashes is a delimiter although the rule's look-behind (one character) calls it escaped"""
+    n, i = 0, 0
+    while i < len(s):
+        if s[i] == "\\":
+            i += 2
+            continue
+        n += s[i] == "$"
+        i += 1
+    return n
+
+
 ENC_OPTS = [[None, None], [True, True], [True, False], [False, True], [False, False]]
 
 
@@ -1253,9 +1266,10 @@ def k12_class(text):
 
 
 def rt_known_class(text, keep_math, enclose_urls):
-    # K5 = several spans: at least three dollars that can open / close a span; a backslash-escaped dollar is no delimiter (neither
-    # for the rule in latex_encoding.py nor for the decoder), so ONE span with \\$ inside is not of this class
-    if keep_math and unescaped_dollars(text) >= 3:
+    # K5 = several spans: at least three dollars that can open / close a span - counted as the rule's one-character look-behind
+    # counts them OR as TeX / the decoder counts them (a dollar after a DOUBLE backslash is escaped for the former, a delimiter
+    # for the latter; found by the `rules` stream).  ONE span with \\$ inside is not of this class
+    if keep_math and max(unescaped_dollars(text), tex_dollars(text)) >= 3:
         # (a narrower class was tried - "some text between two spans needs conversion" - and given up: the ways in which
         # several dollars derail the round trip ($$ display math, text after the last dollar, braces) are too many to
         # enumerate safely; the class stays as wide as the finding is stated)
